@@ -30,6 +30,7 @@ RULE = ('R-produced messages (random templates with sequences, fixed/delayed/zer
         'associated, marker and quality attributes) and sample files x every structure-derived path (depth <= 6) x slice '
         'variants (none, 0, 1, 2, -1, -2, [:], [1:], [::2], [::-1], [0:1], [-2:]) drawn per step x subset selectors; '
         'bare element IDs; non-trivial = non-empty result; distinct by SHA-1 of (message bytes, expression); mixed-sign slices; selector queries over several subsets judged per subset (attribute paths first); same-layout-different-bitmap subsets; `pybufrkit query` (text, -j, -j -n, two files, -t <tables root>)')
+RULE += '; added with rounds 10-12: results of queries on earlier messages read after later queries of the same querent; paths written with tabs / line ends; twins'
 ASSUMPTIONS = ['the nested JSON rendering is the reference structure (its own correctness is C07/C09)',
                'a step applied to a node without members/attributes, or a final node without a value, is unspecified (library: QueryError) and not judged',
                'bare-ID clause is judged for element IDs (F=0) outside class 31 that never occur as an attribute or factor in the message '
